@@ -5,41 +5,32 @@
 
 use std::collections::HashSet;
 
-use grafeo_common::types::{LogicalType, Value};
+use grafeo_common::types::{HashableValue, LogicalType, Value};
 
 use super::{Operator, OperatorResult};
 use crate::execution::DataChunk;
 use crate::execution::chunk::DataChunkBuilder;
 
 /// A row key for duplicate detection.
+///
+/// One [`HashableValue`] per key column: two rows are duplicates exactly when all their
+/// key values are equal as values. (An encoding into a smaller key type merges values
+/// of different types, e.g. the bits of a float with an integer.)
 #[derive(Debug, Clone, PartialEq, Eq, Hash)]
-struct RowKey(Vec<KeyPart>);
-
-#[derive(Debug, Clone, PartialEq, Eq, Hash)]
-enum KeyPart {
-    Null,
-    Bool(bool),
-    Int64(i64),
-    String(String),
-}
+struct RowKey(Vec<HashableValue>);
 
 impl RowKey {
     /// Creates a row key from specified columns.
     fn from_row(chunk: &DataChunk, row: usize, columns: &[usize]) -> Self {
-        let parts: Vec<KeyPart> = columns
+        let parts: Vec<HashableValue> = columns
             .iter()
             .map(|&col_idx| {
-                chunk
-                    .column(col_idx)
-                    .and_then(|col| col.get_value(row))
-                    .map_or(KeyPart::Null, |v| match v {
-                        Value::Null => KeyPart::Null,
-                        Value::Bool(b) => KeyPart::Bool(b),
-                        Value::Int64(i) => KeyPart::Int64(i),
-                        Value::Float64(f) => KeyPart::Int64(f.to_bits() as i64),
-                        Value::String(s) => KeyPart::String(s.to_string()),
-                        _ => KeyPart::String(format!("{v:?}")),
-                    })
+                HashableValue::new(
+                    chunk
+                        .column(col_idx)
+                        .and_then(|col| col.get_value(row))
+                        .unwrap_or(Value::Null),
+                )
             })
             .collect();
         RowKey(parts)
